@@ -487,7 +487,10 @@ def compile_augassign_expression(compiler, expr, root, target, values):
         )
 
     op = a_ops[root][0]
-    target = compiler._storeize(target, compiler.compile(target))
+    st_target = compiler._storeize(target, compiler.compile(target))
+    if not isinstance(st_target, (ast.Name, ast.Attribute, ast.Subscript)):
+        compiler._syntax_error(target, "illegal target for augmented assignment")
+    target = st_target
     ret = compiler.compile(values[0])
     return ret + asty.AugAssign(expr, target=target, value=ret.force_expr, op=op())
 
